@@ -64,6 +64,7 @@ type MShape struct {
 	VarElem  string // "named" | "interface{}" | "any"
 	Rets     []RetKind
 	SrcType  bool // parameter 0 (or result 0 when NP==0) is a type of the source package
+	NilP     bool // the fixed parameters have nillable (interface) types
 }
 
 func (m MShape) String() string {
@@ -78,6 +79,9 @@ func (m MShape) String() string {
 	s := ""
 	if m.SrcType {
 		s = ",srcT"
+	}
+	if m.NilP {
+		s += ",nilP"
 	}
 	return fmt.Sprintf("p%d%s->[%s]%s", m.NP, v, strings.Join(r, ","), s)
 }
@@ -153,6 +157,9 @@ func (e *Eval) paramType(ii, mi, pi int) string {
 	}
 	if m.SrcType && pi == 0 {
 		return e.srcQ() + fmt.Sprintf("SP%s%dx%d", ifaceLetter(ii), mi, pi)
+	}
+	if m.NilP {
+		return depQual + fmt.Sprintf("NP%s%dx%d", ifaceLetter(ii), mi, pi)
 	}
 	return depQual + fmt.Sprintf("TP%s%dx%d", ifaceLetter(ii), mi, pi)
 }
